@@ -23,6 +23,46 @@ func verifInnerDesc(mask int) *thrift.TypeDescriptor {
 	return thrift.VerifStruct("Inner", thrift.Options{}, fs...)
 }
 
+// verifDKind selects the type of the target-only field d (DTYPE): 0 i32, 1 map<string,i64>, 2 map<i32,string>,
+// 3 list<double>, 4 string, 5 Inner, 6 set<i16>; verifDZero is its zero value.
+var verifDKind int
+
+func verifDType() *thrift.TypeDescriptor {
+	switch verifDKind {
+	case 1:
+		return thrift.VerifMap(thrift.VerifBasic(thrift.STRING), thrift.VerifBasic(thrift.I64))
+	case 2:
+		return thrift.VerifMap(thrift.VerifBasic(thrift.I32), thrift.VerifBasic(thrift.STRING))
+	case 3:
+		return thrift.VerifList(thrift.VerifBasic(thrift.DOUBLE))
+	case 4:
+		return thrift.VerifBasic(thrift.STRING)
+	case 5:
+		return verifInnerDesc(3)
+	case 6:
+		return thrift.VerifSet(thrift.VerifBasic(thrift.I16))
+	}
+	return thrift.VerifBasic(thrift.I32)
+}
+
+func verifDZero(b []byte) []byte {
+	switch verifDKind {
+	case 1:
+		return vrt.PutMapHdr(vrt.PutField(b, vrt.TMAP, 4), vrt.TSTRING, vrt.TI64, 0)
+	case 2:
+		return vrt.PutMapHdr(vrt.PutField(b, vrt.TMAP, 4), vrt.TI32, vrt.TSTRING, 0)
+	case 3:
+		return vrt.PutListHdr(vrt.PutField(b, vrt.TLIST, 4), vrt.TDOUBLE, 0)
+	case 4:
+		return vrt.PutString(vrt.PutField(b, vrt.TSTRING, 4), nil)
+	case 5:
+		return append(vrt.PutField(b, vrt.TSTRUCT, 4), 0)
+	case 6:
+		return vrt.PutListHdr(vrt.PutField(b, vrt.TSET, 4), vrt.TI16, 0)
+	}
+	return vrt.PutBE32(vrt.PutField(b, vrt.TI32, 4), 0)
+}
+
 // verifOuterDesc builds S{1: i32 a, 2: string b, 3: Inner c [, 4: i32 d (requiredness req)]} restricted by mask
 // (bit0 a, bit1 b, bit2 c, bit3 d); inner is the descriptor used for c.
 func verifOuterDesc(mask int, inner *thrift.TypeDescriptor, req int, abreq int) *thrift.TypeDescriptor {
@@ -37,7 +77,7 @@ func verifOuterDesc(mask int, inner *thrift.TypeDescriptor, req int, abreq int) 
 		fs = append(fs, thrift.VField{ID: 3, Name: "c", Type: inner, Req: 2})
 	}
 	if mask&8 != 0 {
-		fs = append(fs, thrift.VField{ID: 4, Name: "d", Type: thrift.VerifBasic(thrift.I32), Req: req})
+		fs = append(fs, thrift.VField{ID: 4, Name: "d", Type: verifDType(), Req: req})
 	}
 	return thrift.VerifStruct("S", thrift.Options{}, fs...)
 }
@@ -66,6 +106,7 @@ func verifInnerValue(full, proj []byte, mask int) ([]byte, []byte) {
 func VerifC11_Struct() {
 	tmask := vrt.Param("TMASK")
 	imask := vrt.Param("IMASK")
+	verifDKind = vrt.Param("DTYPE")
 	// requiredness of the target-only field and the three option bits are symbolic (forked in-harness)
 	req := 0
 	if tmask&8 != 0 {
@@ -162,7 +203,7 @@ func VerifC11_Struct() {
 	}
 	if extra && req == 0 && opts.WriteDefault && !opts.NotCheckRequireNess {
 		vrt.Reach("zero-filled")
-		proj = vrt.PutBE32(vrt.PutField(proj, vrt.TI32, 4), 0)
+		proj = verifDZero(proj)
 	}
 	proj = append(proj, 0)
 	vrt.Assert(vrt.BytesEq(out, 0, len(out), proj, 0, len(proj)), "C11.thrift.projection")
